@@ -84,8 +84,10 @@ func c12Provision(c *Ctx, r *Report, rule string) {
 				}
 				z := symInt(0)
 				return SV{K: "slice", Known: true, Nil: true, Len: &z, Cap: &z, Desc: "nil"}, true
+			case callee == "net.CIDRMask" && len(args) == 2 && args[0].K == "int" && args[0].Known && args[1].K == "int" && args[1].Known:
+				return SV{K: "ref", Known: true, Desc: fmt.Sprintf("mask(%d/%d)", args[0].N, args[1].N)}, true
 			case callee == "net.CIDRMask":
-				return symRef("mask", false), true
+				return symRef("mask(?)", false), true
 			case callee == "sort.Slice", callee == "sort.SliceStable", strings.HasPrefix(callee, "slices.SortFunc"), strings.HasPrefix(callee, "slices.SortStableFunc"):
 				return symOpaque("sorted"), true // the order of the rules is not what this rule is about
 			case callee == "strings.Fields" && len(args) == 1 && args[0].K == "str" && args[0].Known:
@@ -125,6 +127,26 @@ func c12Provision(c *Ctx, r *Report, rule string) {
 			case !ok && wantOK:
 				problems = append(problems, "provisioning fails ("+p.Ret[0].Desc+") although every entry resolves to a range or an address")
 			case ok:
+				// a single address is the range of that address alone: the mask made for it covers every bit of the
+				// address it is stored with (4 bytes for IPv4, 16 for IPv6)
+				for k, mv := range p.Heap {
+					if !strings.HasSuffix(k, ".Mask") || !strings.HasPrefix(mv.Desc, "mask(") {
+						continue
+					}
+					var ones, bits int64
+					if _, err := fmt.Sscanf(mv.Desc, "mask(%d/%d)", &ones, &bits); err != nil {
+						problems = append(problems, "the mask made for a single address is "+mv.Desc)
+						continue
+					}
+					ipv := p.Heap[strings.TrimSuffix(k, ".Mask")+".IP"]
+					if ones != bits || ipv.Len == nil || !ipv.Len.Known || ipv.Len.N*8 != bits {
+						ipl := "?"
+						if ipv.Len != nil && ipv.Len.Known {
+							ipl = fmt.Sprint(ipv.Len.N)
+						}
+						problems = append(problems, fmt.Sprintf("a single address becomes a %s-byte address with a mask of %d ones in %d bits: not the range of that address alone (a 16-byte IPv4 address with 32 ones in 128 bits contains every IPv4 peer)", ipl, ones, bits))
+					}
+				}
 				if v, has := p.Heap["m.rules"]; !has || v.Len == nil || !v.Len.Known || v.Len.N != int64(len(allow)) {
 					got := "?"
 					if has && v.Len != nil && v.Len.Known {
